@@ -81,7 +81,7 @@ CLAIMED = {
     "C09": {
         "text": "Machine-checked: C09_reopen_same_object -- Handle::reopen as a program, executed on the static kernel model (tree + procfs) for a "
                 "descriptor open on any non-symlink object and any accepted flags that fit it, returns a NEW descriptor open on the SAME "
-                "object and leaves the descriptor table otherwise exactly as it was (procfs handle resolving with openat2). "
+                "object and leaves the descriptor table otherwise exactly as it was (with openat2 and without). "
                 "Over all kernel answers: reopen with creation flags never succeeds; the magic-link name is "
                 "fd/<decimal> for every descriptor >= 0 (0 included); the only possibly-following open is the verified one; the "
                 "descriptor table is balanced. Runtime: 9 handle kinds x rename/replace/unlink histories x flag sets x descriptor "
